@@ -63,11 +63,11 @@ fn subcommand(args: &[String]) -> Option<i32> {
     }
 }
 
-fn build_child(dir: &Path, profile: Profile, cond: &str, home: &Path) -> Option<Value> {
+fn build_child(dir: &Path, profile: Profile, cond: &str, home: &Path, core: u64) -> Option<Value> {
     let exe = std::env::current_exe().ok()?;
     let mut cmd = if cond == "onecore" {
         let mut c = Command::new("taskset");
-        c.arg("-c").arg("0").arg(&exe);
+        c.arg("-c").arg(core.to_string()).arg(&exe);
         c
     } else {
         Command::new(&exe)
@@ -90,13 +90,17 @@ fn build_child(dir: &Path, profile: Profile, cond: &str, home: &Path) -> Option<
 }
 
 fn check_pkg(ctx: &ShardCtx, name: &str, dir: &Path, res: &mut ShardResult, builds: usize) {
-    let conds = ["default", "rayon1", "onecore", "home", "default", "rayon1"];
+    // the first build is always the default one; the perturbed conditions rotate with the
+    // number of packages checked so far, so that a quick run (3 builds) sees all of them
+    let rot = ctx.shard as usize + res.evaluations as usize;
+    let perturbed = ["rayon1", "onecore", "home"];
+    let conds: Vec<&str> = std::iter::once("default").chain((0..5).map(|k| if k == 3 { "default" } else { perturbed[(k + rot) % 3] })).collect();
     for profile in Profile::BOTH {
         res.evaluations += 1;
         let mut results: Vec<(String, Value)> = vec![];
         for (k, cond) in conds.iter().take(builds).enumerate() {
             let home = ctx.work().join(format!("home{k}"));
-            match build_child(dir, profile, cond, &home) {
+            match build_child(dir, profile, cond, &home, ctx.shard % 16) {
                 Some(v) => {
                     res.count("builds_in_fresh_processes");
                     res.count(&format!("condition.{cond}"));
